@@ -427,6 +427,18 @@ func drawTokens(rt *rapid.T, n int) []srcTok {
 
 var tightPunct = map[string]bool{"(": true, ")": true, "[": true, "]": true, "{": true, "}": true, ",": true, ";": true, "?": true, ":": true}
 
+// commentText draws what follows "//" up to (not including) the line feed
+// that ends the comment: anything but a line feed and NUL - code, quotes,
+// slashes, backslashes, carriage returns (the CR of a CR LF file, and bare
+// ones), tabs, non-ASCII text.
+func commentText(rt *rapid.T) string {
+	if rapid.Bool().Draw(rt, "stockcomment") {
+		return rapid.SampledFrom([]string{" comment", " x = 1; \"quote", " /* not a comment */", " 狐 //nested", "", "/", "//", " was: Count\r return 0;", " done\r", " a\rb", "\r", " \\", " it's", " \"", " x = /re", "\t}\t{", " ) ] }", " return false; }"}).Draw(rt, "comment")
+	}
+	parts := rapid.SliceOfN(rapid.SampledFrom([]string{" ", "a", "1", "\r", "\t", "\"", "'", "/", "\\", "*", ";", "{", "}", "(", ")", "=", "return", "狐", "é", "\v", "\f", "//", "√"}), 0, 10).Draw(rt, "commentparts")
+	return strings.Join(parts, "")
+}
+
 // render prints the tokens with generated layout between them.
 func render(rt *rapid.T, toks []srcTok, vary bool) (string, int) {
 	var b strings.Builder
@@ -443,7 +455,7 @@ func render(rt *rapid.T, toks []srcTok, vary bool) (string, int) {
 					sep = " \t \r\n "
 					changes++
 				case 2:
-					sep = " // " + rapid.SampledFrom([]string{"comment", "x = 1; \"quote", "/* not a comment */", "狐 //nested"}).Draw(rt, "comment") + "\n"
+					sep = " //" + commentText(rt) + "\n"
 					changes++
 				case 3:
 					if (tightPunct[toks[i-1].t.T] || tightPunct[st.t.T]) && st.t.T != "REGEXP" && toks[i-1].t.T != "/" {
